@@ -252,6 +252,21 @@ Definition leak_of_f (c : cfg) (st : astate) (nx : N) (fuse : option N) (o : op)
           | Some a => if c_dg c && (k <? N.of_nat (length (a_xs a))) then skipn (S (N.to_nat k)) (a_xs a) else []
           | None => []
           end
+      | ODrain a v sb eb [] FinDrop =>
+          match get_a v st with
+          | Some av =>
+              let xs := a_xs av in
+              match range_of_bounds usize_max (N.of_nat (length xs)) (to_sb sb) (to_sb eb) with
+              | Some (s, e) =>
+                  let s := N.to_nat s in let e := N.to_nat e in
+                  let range := firstn (e - s) (skipn s xs) in
+                  if c_dg c && (k <? N.of_nat (e - s))
+                  then (match a with Erased => skipn (S (N.to_nat k)) range | Typed => [] end) ++ skipn e xs
+                  else []
+              | None => []
+              end
+          | None => []
+          end
       | OPop _ v KDrop => take_drop_leak c st v TPop 0 k
       | ORemove _ v idx KDrop => take_drop_leak c st v TRemove idx k
       | OSwapRemove _ v idx KDrop => take_drop_leak c st v TSwapRemove idx k
@@ -916,6 +931,36 @@ Proof.
     pose proof (vis_set_any st v (Some (with_xs av []))) as H1. cbn [slot_xs with_xs a_xs app] in H1.
     rewrite perm_cnt in H1. specialize (H1 x).
     destruct (c_dg c && (k <? N.of_nat (length (a_xs av)))); injection Hr as <-; cbn [ok_res panic_res s_st]; exact H1.
+  - (* ODrain *)
+    destruct pat; [|discriminate]. destruct f; [|discriminate].
+    unfold sp_drain_f in Hr. destruct (get_a v st) as [av|] eqn:Hg; [|discriminate]. cbv zeta in Hr.
+    set (xs := a_xs av) in *.
+    destruct (range_of_bounds usize_max (N.of_nat (length xs)) (to_sb sb) (to_sb eb)) as [[sN eN]|] eqn:Erb.
+    + assert (Hb : sN <= eN /\ eN <= N.of_nat (length xs)).
+      { unfold range_of_bounds in Erb.
+        repeat match type of Erb with
+        | context [match ?x with _ => _ end] => destruct x eqn:?; try discriminate
+        | context [if ?x then _ else _] => destruct x eqn:?; try discriminate
+        end.
+        injection Erb as <- <-. match goal with H : (_ && _)%bool = true |- _ => apply andb_prop in H; destruct H as [H1 H2] end.
+        apply N.leb_le in H1, H2. lia. }
+      cbv zeta. set (s := N.to_nat sN) in *. set (e := N.to_nat eN) in *.
+      assert (Hse : (s <= e)%nat) by lia. assert (Hel : (e <= length xs)%nat) by lia.
+      set (range := firstn (e - s) (skipn s xs)) in *.
+      assert (Hrg : Permutation range (firstn (S (N.to_nat k)) range ++ skipn (S (N.to_nat k)) range))
+        by (rewrite firstn_skipn; reflexivity).
+      set (fk := firstn (S (N.to_nat k)) range) in *. set (rk := skipn (S (N.to_nat k)) range) in *.
+      rewrite Hdg in *. cbn [andb] in *.
+      destruct (k <? N.of_nat (e - s)) eqn:Ek.
+      * injection Hr as <-. cbn [panic_res s_nx s_st s_evs]. rewrite drops_map.
+        pose proof (vis_get_any st v) as Hv. rewrite Hg in Hv. cbn [slot_xs] in Hv. fold xs in Hv.
+        pose proof (vis_set_any st v (Some (with_xs av (firstn s xs)))) as H1. cbn [slot_xs with_xs a_xs] in H1.
+        assert (Hx : Permutation xs (firstn s xs ++ range ++ skipn e xs)).
+        { rewrite <- (firstn_skipn s xs) at 1. apply Permutation_app_head.
+          rewrite (skipn_split_range xs s e Hse) at 1. reflexivity. }
+        destruct a; perm_count.
+      * pose proof (drain_own st nx v sb eb [] FinDrop r D L Hr Hinv) as H. cbn [leak_of] in H. exact H.
+    + injection Hr as <-. cbn [panic_res s_nx s_st s_evs drops flat_map]. perm_count.
 Qed.
 End StepOwn.
 
